@@ -372,17 +372,17 @@ func slots(n *Node) int {
 // shapeInfo summarises a shape for classification and for the preconditions
 // of the individual oracles.
 type shapeInfo struct {
-	depth       int
-	kinds       map[string]bool
-	multiOmap   bool // an omap with >= 2 entries
-	omap        bool
-	multiMap    bool // any map with >= 2 entries (gob iterates maps in random order)
-	real        bool
+	depth         int
+	kinds         map[string]bool
+	multiOmap     bool // an omap with >= 2 entries
+	omap          bool
+	multiMap      bool // any map with >= 2 entries (gob iterates maps in random order)
+	real          bool
 	ptrOK         bool // no pointer at all, or only a root pointer to a composite (printed as &{…}, never as an address or through a method)
 	jsonStringTag bool // a field tagged `json:",string"` (quotes plain strings twice, ignored for TextMarshalers)
 	xmlIfaceText  bool // a field tagged as XML attribute or chardata whose type is not T or *T for a leaf type T
-	ptrUnderMul bool // a ptr (or real: it holds pointers) below a multi-entry omap
-	sig         string
+	ptrUnderMul   bool // a ptr (or real: it holds pointers) below a multi-entry omap
+	sig           string
 }
 
 func (n *Node) info() *shapeInfo {
@@ -483,7 +483,7 @@ func leaf(k string) *Node { return &Node{K: k} }
 func wrap(k string, n int, c *Node) *Node {
 	return &Node{K: k, N: n, C: []*Node{c}}
 }
-func strct(tags []int, cs ...*Node) *Node { return &Node{K: "struct", C: cs, Tags: tags} }
+func strct(tags []int, cs ...*Node) *Node  { return &Node{K: "struct", C: cs, Tags: tags} }
 func realNode(name string, hdrs int) *Node { return &Node{K: "real", Real: name, N: hdrs} }
 
 // genNode draws a shape.  noPtr: the subtree must not contain address-bearing
